@@ -625,4 +625,9 @@ def run(run: Run):
     run.floor('C04.R1', 8)
     run.floor('C04.R2', 4)
     run.floor('C04.R3', 2)
+    from . import pipeline_eval as _pe
+    from ..grammar import get_grammar as _gg_pe
+    run.rule('C04.R8', 'overrides of constants, formula cells and zero change every dependent cell as an edit of the workbook would, end to end by evaluation')
+    run.guard('C04.R8', _pe.book_obligations, run, 'C04.R8', 'C04.R8', get_source(), _gg_pe(get_source()))
+    run.floor('C04.R8', 25)
     return INFO
